@@ -124,6 +124,35 @@ func init() {
 		},
 	})
 	core.Register(&core.Property{
+		ID:         "C19",
+		Decided:    "Decides that every Code node with an element code passes the query on, that the compact and indent marshaler helpers hand context-aware marshalers the same (sub-)query, that filtered programs are cached under the key they are looked up with and built from the unfiltered Code tree, that the type cache never stores a filtered program, that building programs does not modify the Code tree, that program copies are complete, and that a call's options (including the context that carries the query) are reset per call; it does not decide the projected document.",
+		NotCovered: "equality of the projection with Marshal restricted to the selected fields, QueryString round trip, interfaces holding structs (the query travels in the opcode).",
+		Rules: []*core.Rule{
+			{ID: "C19.R1", Title: "every Code implementation with a child `value` Code calls value.Filter in its Filter method", Covers: "sub-queries apply through pointers, slices, arrays and maps", Min: 4, Run: c19r1},
+			{ID: "C13.R2", Title: "marshaler helper twins take the same decisions, including SetFieldQueryToContext (shared with C13)", Covers: "context-aware marshalers see the query of their own field in every variant", Min: 2, Run: c13r2},
+			{ID: "C19.R3", Title: "getFilteredCodeSetIfNeeded looks up and stores the filtered program under the same key expression, stores the program compiled from codeSet.Code.Filter(query), and returns early without ContextOption", Covers: "a query never affects encodings made with another query or with none", Min: 4, Run: c19r3},
+			{ID: "C14.R2", Title: "the type cache slot only receives the program compiled for the type (shared with C14)", Covers: "a filtered program never replaces the unfiltered one", Configs: []string{"default", "race"}, Min: 8, Run: c14r2},
+			{ID: "C11.R4", Title: "Filter/ToOpcode do not modify the cached Code tree (shared with C11)", Covers: "filtering for one query does not change the next", Min: 20, Run: c11r4},
+			{ID: "C01.R4", Title: "Filter copies and copyOpcode carry every field (shared with C01)", Covers: "filtered programs behave like the unfiltered one for the kept fields", Min: 20, Run: c01r4},
+			{ID: "C11.R1", Title: "pooled options (the context that carries the query, FieldQueryOption) are reset by every entry point (shared with C11)", Covers: "a query of an earlier call is never applied to a later one", Min: 60, Run: c11r1},
+		},
+	})
+	core.Register(&core.Property{
+		ID:         "C20",
+		Decided:    "Decides that a compiled Path is not written while it is evaluated, that what evaluation overwrites is restored on every exit, that results do not alias package-level slices, that the path builder's look-ahead reads are length-guarded and its recursion bounded, that Path.Get's reflect calls respect their kind and validity preconditions, and that extraction validates what follows the document; it does not decide which sub-documents a path selects.",
+		NotCovered: "selector semantics (child, index, wildcard, recursive descent, quoted names), document order, Path.Unmarshal's decoding of the extracted parts.",
+		Rules: []*core.Rule{
+			{ID: "C10.R3", Title: "fields of decoder.Path are assigned only in the builder (shared with C10)", Covers: "one Path may be used from several goroutines", Min: 3, Run: c10r3},
+			{ID: "C11.R2", Title: "what evaluation overwrites in the Path is restored on every exit (shared with C11)", Covers: "a Path behaves like a fresh one after an error", Min: 2, Run: c11r2},
+			{ID: "C11.R5", Title: "extracted values never alias package-level slices (shared with C11)", Covers: "the result depends only on path text and document", Min: 10, Run: c11r5},
+			{ID: "C20.R1", Title: "every read at <index>+k in path.go is protected by a length test on the same index (no terminator idiom applies to the []rune path text)", Covers: "malformed path text is rejected with an error, never an index panic", Min: 12, Run: c20r1},
+			{ID: "C06.R2", Title: "recursion rule (shared with C06; includes the path builder)", Covers: "a long path text cannot exhaust the stack", Min: 4, Run: c06r2},
+			{ID: "C06.R3", Title: "reflect kind preconditions in Path.Get (shared with C06)", Covers: "Path.Get never panics on a supported kind", Min: 10, Run: c06r3},
+			{ID: "C06.R3b", Title: "zero reflect.Value tolerance in Path.Get and the cast helpers (shared with C06)", Covers: "nil pointers / nil interfaces in the source give an error", Min: 10, Run: c06r3b},
+			{ID: "C05.R3", Title: "extractFromPath returns only through validateEndBuf (shared with C05)", Covers: "anything following the document is an error", Min: 6, Run: c05r3},
+		},
+	})
+	core.Register(&core.Property{
 		ID:         "C12",
 		Decided:    "Decides that the caller's input reaches only len() and the source side of a copy in the Unmarshal entry points, that every slice a Marshal entry point returns is freshly made and filled before the pooled context is released, that in stream mode UnmarshalJSON/UnmarshalText receive fresh copies, and that in-place unescaping only ever rewrites memory the library allocated; it does not decide absence of aliasing for every value.",
 		NotCovered: "that the stream window never moves over strings already handed out, RawMessage/[]byte destinations in stream mode, what user callbacks do with the slices they get.",
